@@ -3,6 +3,7 @@
 package main
 
 import (
+	"github.com/oauth2-proxy/oauth2-proxy/v7/pkg/encryption"
 	"os"
 	"context"
 	"fmt"
@@ -432,9 +433,12 @@ func (e *vEnv) serveNoUpstreamReset(req *http.Request) (res *vResult) {
 // vC12Sequential: one request at a time; session age x provider behaviour x store.
 func vC12Sequential(t *testing.T, out *vEmitter) {
 	for _, redis := range []bool{false, true} {
+	// with and without nonce checking (the default checks it: sessions then carry their login's nonce and their ID token
+	// the matching hashed claim)
+	for _, skipNonce := range []bool{true, false} {
 		e := vNewEnv(t, vEnvCfg{oidc: true, redis: redis, mod: func(o *options.Options) {
 			o.Cookie.Refresh = time.Hour
-			o.Providers[0].OIDCConfig.InsecureSkipNonce = true
+			o.Providers[0].OIDCConfig.InsecureSkipNonce = skipNonce
 			o.InjectRequestHeaders = append(o.InjectRequestHeaders, options.Header{Name: "X-Forwarded-Access-Token",
 				Values: []options.HeaderValue{{ClaimSource: &options.ClaimSource{Claim: "access_token"}}}})
 		}})
@@ -455,8 +459,14 @@ func vC12Sequential(t *testing.T, out *vEmitter) {
 							if !hasRT {
 								s.RefreshToken = ""
 							}
+							nonceClaim := map[string]interface{}{}
+							if !skipNonce {
+								s.Nonce = []byte("login-nonce-0123456789")
+								nonceClaim["nonce"] = encryption.HashNonce(s.Nonce)
+								s.IDToken = vJWT(vKeyRSA, "RS256", vClaims("user@example.com", nonceClaim))
+							}
 							if !oldValid {
-								s.IDToken = vJWT(vKeyRSA2, "RS256", vClaims("user@example.com", nil)) // signed by an unknown key
+								s.IDToken = vJWT(vKeyRSA2, "RS256", vClaims("user@example.com", nonceClaim)) // signed by an unknown key
 							}
 							vReseed(b, s)
 							calls := 0
@@ -469,7 +479,7 @@ func vC12Sequential(t *testing.T, out *vEmitter) {
 								if !newValid {
 									k = vKeyRSA2
 								}
-								return 200, "application/json", vTokenJSON(vJWT(k, "RS256", vClaims("user@example.com", nil)), "at-new", "rt-new", 3600), nil
+								return 200, "application/json", vTokenJSON(vJWT(k, "RS256", vClaims("user@example.com", nonceClaim)), "at-new", "rt-new", 3600), nil
 							}
 							res := b.get("/page")
 							stale := ageMin > 60
@@ -517,6 +527,7 @@ func vC12Sequential(t *testing.T, out *vEmitter) {
 				}
 			}
 		}
+	}
 	}
 }
 
